@@ -254,7 +254,7 @@ class ValCfg:
     max_str: int = 12
     long_str: int = 300
     max_dyn: int = 4
-    long_dyn: int = 70
+    long_dyn: int = 300
     allow_long: bool = True
 
 
